@@ -415,3 +415,85 @@ def _():
         fails.append(dict(case="BaseFont /Helvetica with /Widths [1000 1000]", got=got, want=[("A", 10.0)],
                           known="F26" if got == [("A", 6.67)] else None))
     return dict(cases=2, failures=fails)
+
+
+# -- PDFFont.__init__ and the metric getters (C05: glyph boxes are built from them; C06) ------------------------------------------------------------------
+class _Descriptor(T.Sort):
+    NAMES = ["literal", "bytes", "str", "number", "absent"]
+    def fresh(self, ctx, name):
+        nk = ctx.choose(self.NAMES, "FontName")
+        has = {k: ctx.choose([True, False], "has-" + k) for k in ("Ascent", "Descent", "MissingWidth")}
+        vals = {k: ctx.fresh_real(k) if hasattr(ctx, "fresh_real") else T.Real().fresh(ctx, k) for k in ("Ascent", "Descent", "MissingWidth")}
+        d = {k: vals[k] for k in vals if has[k]}
+        LIT_ = real_module("pdfminer.psparser").LIT
+        if nk != "absent":
+            d["FontName"] = {"literal": LIT_("ABCDEF+Times"), "bytes": b"Times-\xe9", "str": "Arial", "number": 12}[nk]
+        return SObj(None, {"d": d, "_name": nk, "_has": has, "_vals": vals}, name)
+    def sample(self, rng):
+        return None
+    def from_model(self, ev, v):
+        return {"FontName": v.f["_name"], "has": v.f["_has"]}
+
+
+_pb = stub("pdfminer.pdffont:PDFFont._parse_bbox", ["descriptor"], T.Const((0, 0, 0, 0)))
+c = contract("pdfminer.pdffont:PDFFont.__init__", props=["C05", "C06"])
+c.param("self", T.Obj("pdfminer.pdffont:PDFFont")).param("descriptor", T.Const(None)).param("widths", T.Const({65: 500})).param("default_width", T.OneOf(None, 600))
+c.ghost("desc", _Descriptor())
+c.skip_cross = True
+c.inline = True
+c.inline_callees = True
+c.wire = lambda bound, ghosts: bound.__setitem__("descriptor", ghosts["desc"].f["d"])
+c.stubs = {"pdfminer.pdffont:PDFFont._parse_bbox": _pb}
+c.mod("self.*")
+
+
+def _font_init_spec(self, desc, default_width):
+    v, has = desc._vals, desc._has
+    asc = v["Ascent"] if has["Ascent"] else 0
+    dsc = v["Descent"] if has["Descent"] else 0
+    want_name = {"literal": "ABCDEF+Times", "bytes": "Times-\xe9", "str": "Arial", "number": "unknown", "absent": "unknown"}[desc._name]
+    dw = default_width if default_width is not None else (v["MissingWidth"] if has["MissingWidth"] else 0)
+    return And(self.fontname == want_name, eq(self.ascent, asc), eq(self.descent, If(lt(0, dsc), -dsc, dsc)), le(self.descent, 0), eq(self.default_width, dw),
+               eq(self.hscale, 0.001) if not isinstance(self.hscale, float) else self.hscale == 0.001, self.vscale == self.hscale, tuple(self.bbox) == (0, 0, 0, 0))
+
+
+c.ens("descriptor-values-with-defaults-descent-never-positive-name-as-text-thousandth-scale", _font_init_spec)
+
+_FontM = lambda: T.Obj("pdfminer.pdffont:PDFFont", ascent=T.Real(), descent=T.Real(), default_width=T.Real(), hscale=T.Real(), vscale=T.Real(), bbox=T.RealTup(4))
+for _g, _spec in (("get_ascent", lambda self, result: eq(result, self.ascent * self.vscale)),
+                  ("get_descent", lambda self, result: eq(result, self.descent * self.vscale)),
+                  ("get_width", lambda self, result: eq(result, If(eq(self.bbox[2] - self.bbox[0], 0), -self.default_width, self.bbox[2] - self.bbox[0]) * self.hscale)),
+                  ("get_height", lambda self, result: eq(result, If(eq(self.bbox[3] - self.bbox[1], 0), self.ascent - self.descent, self.bbox[3] - self.bbox[1]) * self.vscale))):
+    c = contract("pdfminer.pdffont:PDFFont.%s" % _g, props=["C05", "C06"])
+    c.param("self", _FontM())
+    c.skip_cross = True
+    c.inline = True
+    c.returns(T.Real())
+    c.ens("metric-in-text-space-units", _spec)
+
+
+class _BBoxDesc(T.Sort):
+    KINDS = ["four-numbers", "absent", "three-numbers", "five-numbers", "a-name", "number-and-names", "a-number"]
+    def fresh(self, ctx, name):
+        k = ctx.choose(self.KINDS, "FontBBox")
+        r = [T.Real().fresh(ctx, "b%d" % i) for i in range(5)]
+        LIT_ = real_module("pdfminer.psparser").LIT
+        v = {"four-numbers": r[:4], "three-numbers": r[:3], "five-numbers": r[:5], "a-name": LIT_("none"), "number-and-names": [r[0], LIT_("a"), r[2], r[3]], "a-number": 7}.get(k)
+        d = {} if k == "absent" else {"FontBBox": v}
+        return SObj(None, {"d": d, "_k": k, "_r": r}, name)
+    def sample(self, rng):
+        return None
+    def from_model(self, ev, v):
+        return v.f["_k"]
+
+
+sc = scenario("pdfminer.pdffont", "font-bbox-four-numbers-or-zeros", """
+def bbox_of(desc):
+    return PDFFont._parse_bbox(desc.d)
+""", props=["C05", "C06", "C13"])
+sc.param("desc", _BBoxDesc())
+sc.inline_callees = True
+sc.skip_cross = True
+sc.returns(T.Opaque("rect"))
+sc.ens("the-first-four-numbers-else-all-zero", lambda desc, result: (
+    len(result) == 4 and (And(*[eq(result[i], desc._r[i]) for i in range(4)]) if desc._k in ("four-numbers", "five-numbers") else And(*[eq(result[i], 0) for i in range(4)]))))
